@@ -1,7 +1,7 @@
 (* Correspondence cases for C12: edit histories run against a real Core (directly through Core.APIConfig*, or over
    the HTTP Control API), with the configuration read back after every edit. *)
 From Coq Require Import List ZArith Bool.
-Require Export MTX.Model.C12_ApiEdit MTX.Model.C12_FileReload.
+Require Export MTX.Model.C12_ApiEdit MTX.Model.C12_FileReload MTX.Model.C12_Reads.
 Import ListNotations.
 Local Open Scope Z_scope.
 
@@ -22,7 +22,19 @@ Record step := mkStep { sop : op; smust : bool; sout : outcome;
 Record fstep := mkFile { fxgch : fmap; fxgrem : list Z; fxdch : fmap; fxdrem : list Z; fxpaths : list pobs;
                          fogch : fmap; fogrem : list Z; fodch : fmap; fodrem : list Z; fopaths : list pobs }.
 
+(* a GET between edits: the answer as its differences to the RUNNING configuration (read in-package, credentials
+   included: g for global/get, d for pathdefaults/get, the effective path for paths/get and each item of paths/list),
+   and the running configuration after the GET as differences to the one before it ([rpaths = None]: the paths are
+   identical to those before, text for text) *)
+Inductive robs :=
+| RDiff (ch : fmap) (rem : list Z)
+| RList (items : list (Z * (fmap * list Z)))
+| RMissing.
+Record rdstep := mkRead { rep : endpoint; rresp : robs;
+                          rgch : fmap; rgrem : list Z; rdch : fmap; rdrem : list Z; rpaths : option (list pobs) }.
+
 Inductive hobs :=
+| SRead (r : rdstep)
 | SApi (st : step)
 | SFile (f : fstep)
 | SBroken (exited : bool)     (* the file does not load; observed: Core.run has closed p.done within the watchdog *)
@@ -32,6 +44,8 @@ Inductive case :=
 | History (m : mode) (name_f : Z) (g d : fmap) (paths : list pobs) (steps : list step)
 | Unanswered (m : mode)    (* an edit request got no answer at all (details in the case description) *)
 | FileHistory (m : mode) (name_f : Z) (g d : fmap) (paths : list pobs) (steps : list hobs)
+| ReadHistory (m : mode) (name_f : Z) (cred : list Z) (g d : fmap) (paths : list pobs) (steps : list hobs)
+    (* histories with GETs between the steps; [cred] = the fields whose values the API redacts *)
 | NotReloaded (m : mode).  (* the file was rewritten and the running configuration did not change within the watchdog *)
 
 (* ---- helpers (own definitions: spec_fail below does not use the model) -------------------------------------- *)
@@ -85,15 +99,50 @@ Fixpoint run_steps (name_f : Z) (w : world) (g d : fmap) (sts : list step) : boo
   end.
 
 (* histories with file reloads: the model is Model/C12_FileReload.hstep *)
-Fixpoint run_hsteps (name_f : Z) (st : option world) (g d : fmap) (sts : list hobs) : bool :=
+(* an answer agrees with the running configuration everywhere but in the credential fields (whose redaction is
+   C07's subject) *)
+Definition diff_in (cred : list Z) (ch : fmap) (rem : list Z) : bool :=
+  forallb (fun kv => has (fst kv) cred) ch && forallb (fun k => has k cred) rem.
+Definition keys_same (a b : list Z) : bool :=
+  forallb (fun k => has k b) a && forallb (fun k => has k a) b && (length a =? length b)%nat.
+Definition resp_ok (cred : list Z) (e : endpoint) (r : robs) (names : list Z) : bool :=
+  match e, r with
+  | (EGlobal | EDefaults), RDiff ch rem => diff_in cred ch rem
+  | EGet n, RDiff ch rem => has n names && diff_in cred ch rem
+  | EGet n, RMissing => negb (has n names)
+  | EList, RList items => keys_same (map fst items) names &&
+                          forallb (fun it => diff_in cred (fst (snd it)) (snd (snd it))) items
+  | _, _ => false
+  end.
+Definition resp_shape (r : resp) (o : robs) : bool :=
+  match r, o with
+  | RFields _, RDiff _ _ => true
+  | RItems l, RList items => keys_same (map fst l) (map fst items)
+  | RNotFound, RMissing => true
+  | _, _ => false
+  end.
+Definition idf (m : fmap) : fmap := m.
+
+Fixpoint run_hsteps (name_f : Z) (cred : list Z) (st : option world) (g d : fmap) (ps : list pobs) (sts : list hobs) : bool :=
   match sts with
   | [] => true
+  | SRead rd :: r =>
+      match st with
+      | Some w =>
+          let '(w', rs) := read_world name_f Deep idf idf idf w (rep rd) in
+          let g' := patched g (rgch rd) (rgrem rd) in
+          let d' := patched d (rdch rd) (rdrem rd) in
+          let ps' := match rpaths rd with Some x => x | None => ps end in
+          resp_shape rs (rresp rd) && resp_ok cred (rep rd) (rresp rd) (map fst (vp (abs w))) &&
+          view_agrees name_f (abs w') g' d' ps' && run_hsteps name_f cred (Some w') g' d' ps' r
+      | None => false
+      end
   | SApi a :: r =>
       match hstep (verdict a) st (HApi (sop a) true) with
       | (Some w', HAnswer out) =>
           let g' := patched g (sgch a) (sgrem a) in
           let d' := patched d (sdch a) (sdrem a) in
-          out_eqb out (sout a) && view_agrees name_f (abs w') g' d' (spaths a) && run_hsteps name_f (Some w') g' d' r
+          out_eqb out (sout a) && view_agrees name_f (abs w') g' d' (spaths a) && run_hsteps name_f cred (Some w') g' d' (spaths a) r
       | _ => false
       end
   | SFile f :: r =>
@@ -102,7 +151,7 @@ Fixpoint run_hsteps (name_f : Z) (st : option world) (g d : fmap) (sts : list ho
       | (Some w', HReloaded) =>
           let g' := patched g (fogch f) (fogrem f) in
           let d' := patched d (fodch f) (fodrem f) in
-          view_agrees name_f (abs w') g' d' (fopaths f) && run_hsteps name_f (Some w') g' d' r
+          view_agrees name_f (abs w') g' d' (fopaths f) && run_hsteps name_f cred (Some w') g' d' (fopaths f) r
       | _ => false
       end
   | SBroken exited :: r =>
@@ -125,7 +174,10 @@ Definition mismatch (c : case) : bool :=
   | Unanswered _ => true
   | FileHistory _ name_f g d ps sts =>
       let w := load (obs_view g d ps) in
-      negb (view_agrees name_f (abs w) g d ps && run_hsteps name_f (Some w) g d sts)
+      negb (view_agrees name_f (abs w) g d ps && run_hsteps name_f [] (Some w) g d ps sts)
+  | ReadHistory _ name_f cred g d ps sts =>
+      let w := load (obs_view g d ps) in
+      negb (view_agrees name_f (abs w) g d ps && run_hsteps name_f cred (Some w) g d ps sts)
   | NotReloaded _ => true
   end.
 
@@ -234,13 +286,23 @@ Definition file_ok (name_f : Z) (g d : fmap) (f : fstep) : bool :=
   let do := patched d (fodch f) (fodrem f) in
   same_map gx go && same_map dx do && pobs_same (fxpaths f) (fopaths f) && forallb (eff_ok name_f do) (fopaths f).
 
-Fixpoint hsteps_ok (name_f : Z) (g d : fmap) (ps : list pobs) (sts : list hobs) : bool :=
+(* a GET does not change the running configuration (credentials included: the configuration is read in-package), and
+   what it answers is the running configuration = the result of every edit answered before it *)
+Definition read_ok (cred : list Z) (ps : list pobs) (rd : rdstep) : bool :=
+  match rgch rd, rgrem rd, rdch rd, rdrem rd with [], [], [], [] => true | _, _, _, _ => false end &&
+  match rpaths rd with None => true | Some ps' => pobs_same ps ps' end &&
+  resp_ok cred (rep rd) (rresp rd) (map pname ps).
+
+Fixpoint hsteps_ok (name_f : Z) (cred : list Z) (g d : fmap) (ps : list pobs) (sts : list hobs) : bool :=
   match sts with
   | [] => true
+  | SRead rd :: r => read_ok cred ps rd &&
+                     hsteps_ok name_f cred (patched g (rgch rd) (rgrem rd)) (patched d (rdch rd) (rdrem rd))
+                               (match rpaths rd with Some x => x | None => ps end) r
   | SApi st :: r => step_ok name_f g d ps st &&
-                    hsteps_ok name_f (patched g (sgch st) (sgrem st)) (patched d (sdch st) (sdrem st)) (spaths st) r
+                    hsteps_ok name_f cred (patched g (sgch st) (sgrem st)) (patched d (sdch st) (sdrem st)) (spaths st) r
   | SFile f :: r => file_ok name_f g d f &&
-                    hsteps_ok name_f (patched g (fogch f) (fogrem f)) (patched d (fodch f) (fodrem f)) (fopaths f) r
+                    hsteps_ok name_f cred (patched g (fogch f) (fogrem f)) (patched d (fodch f) (fodrem f)) (fopaths f) r
   (* what the server does with a file that does not load / with resources that cannot be created is not part of the
      property's statement: observed, compared with the model (mismatch), reported in the notes *)
   | SBroken _ :: r => true
@@ -251,6 +313,7 @@ Definition spec_fail (c : case) : bool :=
   match c with
   | History _ name_f g d ps sts => negb (forallb (eff_ok name_f d) ps && steps_ok name_f g d ps sts)
   | Unanswered _ => true
-  | FileHistory _ name_f g d ps sts => negb (forallb (eff_ok name_f d) ps && hsteps_ok name_f g d ps sts)
+  | FileHistory _ name_f g d ps sts => negb (forallb (eff_ok name_f d) ps && hsteps_ok name_f [] g d ps sts)
+  | ReadHistory _ name_f cred g d ps sts => negb (forallb (eff_ok name_f d) ps && hsteps_ok name_f cred g d ps sts)
   | NotReloaded _ => true
   end.
